@@ -1,53 +1,54 @@
 """C39 - stream saving writes each completed flow once and keeps open flows at shutdown.
 
-Decided (structural clauses of addons/save.py::Save and io/io.py::FilteredFlowWriter):
-  R39.1 hook registry: the completion hooks of every flow type (names derived from the hook classes the layers
-        define) exist on Save and reach ``save_flow(flow)`` exactly once on every path - the plain-HTTP pair only
-        for ``flow.websocket is None`` (a websocket flow is written at websocket_end, not at the 101 response);
-        the start hooks add the flow to ``active_flows`` exactly when a stream is open; no other hook method of
-        Save reaches a write to the stream.
-  R39.2 ``save_flow``: no stream => nothing written; otherwise exactly one ``self.stream.add(flow)`` and the flow
-        leaves ``active_flows`` on the success path (else ``done`` would write it a second time).  ``done``: every
-        remaining active flow is added once, the set is cleared after the loop and the stream is dropped.
-        ``FilteredFlowWriter.add`` writes exactly one record iff no filter is set or the filter matches.
-  R39.3 ``configure``: a changed filter is parsed into ``self.filt`` (None when cleared) and installed on the
-        live writer; clearing save_stream_file calls ``done()``; a rotated writer is created with ``self.filt``.
-NOT decided: that the layers fire those hooks once per flow (C03/C29), flowfilter semantics, file-system behaviour,
-rotation timing.  Narrowed from DESIGN R39.2: "rotate precedes add" and "the file is closed" are not armed - neither changes which
-records are in the stream file (flush is decided by R37.1); only "no close before the remaining flows are written" is.
+Decided by INTERPRETING ``addons/save.py::Save`` together with the stream writer it really instantiates (``io/io.py``) and
+``tnetstring.dump`` (mitmlint/pyint.py, nothing is imported or run) in a world of stubs - options, a clock that shows through
+``strftime``, a table of in-memory files, abstract flows, a filter language of one-letter tags - and comparing, after every hook of
+a set of lifecycle histories, the records that reached the stream file(s) with what the property says (``SaveSpec``):
+  R39.1 hook registry: every completion hook of every flow type (names derived from the hook classes the layers define) exists on
+        Save (as a method or a class-level alias, along the MRO) and appends exactly one record of its flow - also for a flow whose
+        start hook was not seen while saving was active; the plain-HTTP pair writes nothing for a websocket flow (written at
+        websocket_end, not at the 101 response); a flow seen by a start hook while a stream is open - and only then - is written
+        once when saving stops; no other flow hook of Save writes.
+  R39.2 bookkeeping: nothing is written without a stream or after ``done()``; a completed flow is not written again at the stop;
+        open flows are written exactly once at the stop and never again at a later stop; the stream writer writes one record iff
+        no filter is set or the filter matches.
+  R39.3 ``configure``: a filter changed / cleared while the stream is open is what the live writer uses from then on; clearing
+        save_stream_file writes the open flows and stops; a writer created by rotation filters like the one before.
+Because the rules look at behaviour, renamed locals / parameters, temporaries, inverted guards, extracted helpers (``_track``,
+``_close_stream`` ...), base classes with ``super()`` and class-level hook aliases (``tcp_error = tcp_end``) are all transparent.
+NOT decided: that the layers fire those hooks once per flow (C03/C29), flowfilter semantics, file-system behaviour, rotation
+timing (only that records are neither lost nor duplicated across a rotation), the ``save.file`` command.
+Bounds: the histories listed in ``_histories`` (quick) plus every interleaving of a small event alphabet up to depth 3 after
+activation (thorough).
 """
 
 from __future__ import annotations
 
-import ast
+import itertools
 
-from ..model import attr_chain
-from ..model import last_attr
+from ..core import AnalysisError
 from ..selftest import Mutant
-from ._helpers_E import aliases_of
-from ._helpers_E import calls
 from ._helpers_E import class_fields
-from ._helpers_E import cond_facts
-from ._helpers_E import fact
-from ._helpers_E import fact_any
-from ._helpers_E import feasible
+from ._helpers_E import expect
 from ._helpers_E import hook_classes
 from ._helpers_E import hook_name
-from ._helpers_E import methods
-from ._helpers_E import params
-from ._helpers_E import expect
-from ._helpers_E import paths
-from ._helpers_E import show
+from ._helpers_flowio import SaveSpec
+from ._helpers_flowio import SaveWorld
+from ._helpers_flowio import flat_stack
+from ._helpers_flowio import make_flow
+from ._helpers_flowio import run as run_interp
 
 PROP = "C39"
 REG = {
     "strength": "strong",
-    "technique": "hook registry derived from the layers' hook classes + path enumeration (helpers inlined, branch conditions recorded) over Save and FilteredFlowWriter",
-    "claim": "every completion hook of every flow type reaches save_flow exactly once (plain HTTP only when flow.websocket is None), "
-    "start hooks register the flow iff a stream is open, no other hook writes; save_flow/done/FilteredFlowWriter.add write exactly one "
-    "record per matching flow and keep active_flows consistent; configure installs filter changes on the live writer and stops via done().",
-    "note": "Trusted: the addon manager invokes the Save method named like the hook; the layers fire each completion hook once per flow "
-    "(C03, C29). Loops unrolled once.",
+    "technique": "hook registry derived from the layers' hook classes + interpretation (pyint) of Save, the stream writer and tnetstring.dump over "
+    "lifecycle histories in a stub world, compared hook by hook with an executable statement of the property",
+    "claim": "every completion hook of every flow type appends exactly one record of a matching flow (plain HTTP only when flow.websocket is None), "
+    "also for flows whose start was not seen; flows started while a stream is open are written once at the stop; nothing is written without a "
+    "stream, after done(), by other hooks, or for non-matching flows; filter changes reach the live and the rotated writer; clearing the file "
+    "option writes the open flows and stops.",
+    "note": "Trusted: the addon manager invokes the Save attribute named like the hook; the layers fire each completion hook once per flow "
+    "(C03, C29); the stubs and the wire-format reference in _helpers_flowio. Bounded: listed histories (quick), interleavings to depth 3 (thorough).",
 }
 
 SAVE = "mitmproxy/addons/save.py"
@@ -62,9 +63,7 @@ REGISTRY = {
     "udp": (L + "udp.py", ["UdpStartHook"], ["UdpEndHook", "UdpErrorHook"], ["UdpMessageHook"]),
     "dns": (L + "dns.py", ["DnsRequestHook"], ["DnsResponseHook", "DnsErrorHook"], []),
 }
-LIFECYCLE = {"load", "configure", "done", "running", "update"}
-WRITE = "self.stream.add"
-SINK = "self.save_flow"
+FLOWCLS = {"http": "HTTPFlow", "websocket": "HTTPFlow", "tcp": "TCPFlow", "udp": "UDPFlow", "dns": "DNSFlow"}
 
 
 def _hooks(ctx):
@@ -83,338 +82,315 @@ def _hooks(ctx):
     return start, completion, other
 
 
+class _History:
+    """One lifecycle history: the interpreted addon and the property's oracle are driven side by side."""
+
+    def __init__(self, ctx, rule, title, where):
+        self.ctx, self.rule, self.title, self.where = ctx, rule, title, where
+        self.w = SaveWorld(ctx.model)
+        self.spec = SaveSpec()
+        self.ok = True
+        self.events = 0
+
+    def _verdict(self, status, want, what, unordered=False):
+        if not self.ok:
+            return
+        self.events += 1
+        self.ctx.cells += 1
+        got, tail = self.w.new_records()
+        problem = None
+        if status == "missing":
+            problem = f"Save has no attribute {what}: the addon manager has nothing to call"
+        elif status != "ok":
+            problem = f"{what.split(' raised ')[0]} raises {status.split(':', 1)[1]}"
+        elif tail:
+            problem = f"{what} left a partial record in the stream file"
+        elif (sorted(map(str, got)) != sorted(want)) if unordered else (got != want):
+            problem = f"{what} appended the records {got} to the stream file(s), the property requires {want}"
+        if problem:
+            self.ok = False
+            self.ctx.fail(self.rule, self.where, f"history {self.title}", problem + "   [history: " + " ; ".join(self.w.trace) + "]")
+
+    # -- events
+    def cfg(self, **opts):
+        st = self.w.configure(**opts)
+        want = self.spec.configure(self.w.options, set(opts))
+        self._verdict(st, want, self.w.trace[-1], unordered=True)
+
+    def start(self, hook, f):
+        st = self.w.hook(hook, f)
+        self._verdict(st, self.spec.start(f), f"{hook}({f.id})")
+
+    def complete(self, hook, f):
+        st = self.w.hook(hook, f)
+        self._verdict(st, self.spec.complete(f), f"{hook}({f.id})")
+
+    def silent(self, hook, f):
+        """a hook that is no completion (other hooks; the HTTP pair on a websocket flow)"""
+        st = self.w.hook(hook, f)
+        self._verdict(st, [], f"{hook}({f.id})")
+
+    def done(self):
+        st = self.w.hook("done")
+        self._verdict(st, self.spec.stop(), "done()", unordered=True)
+
+    def writer_add(self, f):
+        """call the live stream writer's add() directly (the oracle: one record iff the current filter matches)"""
+        if not self.ok:
+            return
+        s = self.w.stream_object()
+        if s is None:
+            raise AnalysisError("C39: no stream writer after save_stream_file was set (Save.stream moved?)")
+        r = run_interp(self.w.it, self.w.it.getattr(s, "add", None, 0), f)
+        self.w.trace.append(f"stream.add({f.id})")
+        self._verdict("ok" if r[0] == "ok" else f"raise:{r[1]}", [f.id] if self.spec.matches(f) else [], f"stream.add({f.id})")
+
+    def tick(self, clock):
+        self.w.clock = clock
+        self.w.trace.append(f"clock={clock}")
+
+    def close(self, desc=None):
+        if self.ok and desc:
+            self.ctx.ok(self.rule, f"{desc} ({self.events} events)")
+        return self.ok
+
+
 def check(ctx):
-    ctx.rule("R39.1", "completion hooks reach save_flow(flow) exactly once (http only if flow.websocket is None); start hooks register iff a stream is open; no other hook writes")
-    ctx.rule("R39.2", "save_flow / done / FilteredFlowWriter.add write exactly one record per matching flow and keep active_flows consistent")
-    ctx.rule("R39.3", "configure installs a changed filter on the live writer and calls done() when the file option is cleared; rotated writers get self.filt")
+    flat_stack(_check, ctx)
+
+
+def _check(ctx):
+    ctx.rule("R39.1", "every completion hook appends exactly one record of its flow (http only if flow.websocket is None), also without a start; flows started while a stream is open are written at the stop; no other hook writes")
+    ctx.rule("R39.2", "nothing is written without a stream / after done(); completed flows are not written again; open flows exactly once; the writer writes iff the filter matches")
+    ctx.rule("R39.3", "configure: a changed / cleared filter reaches the live writer and a rotated one; clearing save_stream_file writes the open flows and stops")
     m = ctx.model
     save = m.cls(SAVE, "Save")
-    meths = methods(save)
     start, completion, other = _hooks(ctx)
-    ctx.trust("addonmanager dispatches a hook to the addon method of the same name")
-    for name, fn in meths.items():
-        al = aliases_of(fn, "self.stream") + aliases_of(fn, "self.active_flows") + aliases_of(fn, "self.save_flow")
-        ctx.require(not al, f"Save.{name} aliases self.stream / self.active_flows / self.save_flow as {al}: writes through an alias are not modelled")
+    ctx.trust("addonmanager dispatches a hook to the addon attribute of the same name (methods, inherited methods and class-level aliases alike)")
+    ctx.bounds.append("the listed histories (quick); interleavings of 8 events to depth 3 after activation (thorough); filters = one-letter tag sets")
+    ctx.functions.update({f"{SAVE}::Save", f"{IO}::FilteredFlowWriter.add"})
+    where = (SAVE, "Save", save)
+    starts_of = {}
+    for h, typ in start.items():
+        starts_of.setdefault(typ, []).append(h)
+    starts_of["websocket"] = starts_of.get("http", [])
+    completions_of = {}
+    for h, typ in sorted(completion.items()):
+        completions_of.setdefault(typ, []).append(h)
+    probe = SaveWorld(m)
 
-    def resolver(call):
-        f = call.func
-        if isinstance(f, ast.Attribute) and isinstance(f.value, ast.Name) and f.value.id == "self" and f.attr in meths and f.attr != "save_flow":
-            return meths[f.attr]
-        return None
+    def flow(fid, typ, tags="x", **kw):
+        return make_flow(fid, FLOWCLS[typ], tags=tags, **kw)
 
-    # flow pass-through: every call of one Save hook/sink from another hands over the caller's own flow parameter
-    def passes_flow(name, fn):
-        ok = True
-        ps = params(fn)
-        for c in [n for n in ast.walk(fn) if isinstance(n, ast.Call)]:
-            f = c.func
-            if isinstance(f, ast.Attribute) and attr_chain(f.value) == "self" and f.attr in meths and (f.attr == "save_flow" or f.attr in completion or f.attr in start):
-                good = len(ps) == 1 and len(c.args) == 1 and not c.keywords and isinstance(c.args[0], ast.Name) and c.args[0].id == ps[0]
-                if not good:
-                    ok = False
-                    ctx.fail("R39.1", (SAVE, f"Save.{name}", c), c, "the hook does not pass its own flow on: a different / no flow would be written")
-        return ok
+    def begin(h, typ, f):
+        for s in starts_of.get(typ, []):
+            h.start(s, f)
+        if typ == "websocket":
+            f.websocket = object()
+            for c in completions_of.get("http", []):
+                h.silent(c, f)
 
     # ---- R39.1 completion hooks
     for hname, typ in sorted(completion.items()):
-        if hname not in meths:
-            ctx.fail("R39.1", (SAVE, "Save", save), f"missing hook {hname}", f"{typ} flows completing with {hname} are never written")
+        if not probe.has(hname):
+            ctx.fail("R39.1", where, f"missing hook {hname}", f"{typ} flows completing with {hname} are never written")
             continue
-        fn = ctx.func(SAVE, f"Save.{hname}")
-        passes_flow(hname, fn)
-        fp = params(fn)
-        ctx.require(len(fp) == 1, f"Save.{hname} no longer takes exactly one flow parameter")
-        ws = sorted({f"{p}.websocket" for f2 in meths.values() for p in params(f2)})  # same flow in every inlined hook (passes_flow)
-        trs, eng = paths(fn, resolver=resolver, keep=lambda e: e[0] == "call" and e[1] in (SINK, WRITE))
-        ctx.paths += len(trs)
-        bad = False
-        for t, how in trs:
-            if fact(t, "self.stream") is False:
-                continue  # save_flow is a no-op without a stream anyway
-            n = len(calls(t, SINK))
-            direct = len(calls(t, WRITE))
-            if how != "return" or direct:
-                want = None
-            elif typ == "http":
-                w = fact_any(t, ws)
-                want = None if w is None else (0 if w else 1)
-            else:
-                want = 1
-            if want is None or n != want:
-                bad = True
-                why = (
-                    "writes to the stream directly instead of through save_flow" if direct
-                    else "raises" if how != "return"
-                    else f"reaches save_flow {n}x without deciding flow.websocket (a websocket flow would be written at the 101 response and again at websocket_end, or a plain flow never)" if want is None
-                    else f"reaches save_flow {n}x, expected {want}x"
-                )
-                ctx.fail("R39.1", (SAVE, f"Save.{hname}", fn), f"{hname}: path [{show(t)}] save_flow x{n}", f"completion hook {hname} ({typ}): {why}")
-        if not bad:
-            ctx.ok("R39.1", f"completion {typ}:{hname} -> save_flow exactly once on {len(trs)} paths" + (" (only if flow.websocket is None)" if typ == "http" else ""))
+        h = _History(ctx, "R39.1", f"completion {hname} under a filter", where)
+        f, g = flow("f", typ, "x"), flow("g", typ, "y")
+        h.cfg(save_stream_file="/dump", save_stream_filter="x")
+        begin(h, typ, f)
+        begin(h, typ, g)
+        h.complete(hname, g)
+        h.complete(hname, f)
+        h.cfg(save_stream_file=None)
+        good = h.close()
+        h = _History(ctx, "R39.1", f"completion {hname} of a flow whose start was not seen", where)
+        f, g = flow("f", typ), flow("g", typ)
+        begin(h, typ, g)  # before saving is switched on
+        h.cfg(save_stream_file="/dump")
+        if typ == "websocket":
+            f.websocket = object()
+        h.complete(hname, f)
+        h.complete(hname, g)
+        h.cfg(save_stream_file=None)
+        good = h.close() and good
+        if good:
+            ctx.ok("R39.1", f"completion {typ}:{hname} -> exactly one record of a matching flow, with or without a start" + (" (nothing at response/error of a websocket flow)" if typ == "websocket" else ""))
 
     # ---- R39.1 start hooks
     for hname, typ in sorted(start.items()):
-        if hname not in meths:
-            ctx.fail("R39.1", (SAVE, "Save", save), f"missing hook {hname}", f"open {typ} flows are not registered, so they are lost when saving stops")
+        if not probe.has(hname):
+            ctx.fail("R39.1", where, f"missing hook {hname}", f"open {typ} flows are not registered, so they are lost when saving stops")
             continue
-        fn = ctx.func(SAVE, f"Save.{hname}")
-        passes_flow(hname, fn)
-        fp = params(fn)
-        ctx.require(len(fp) == 1, f"Save.{hname} no longer takes exactly one flow parameter")
-        trs, eng = paths(fn, resolver=resolver, keep=lambda e: e[0] == "call" and (e[1] in (SINK, WRITE) or e[1].startswith("self.active_flows.")))
-        ctx.paths += len(trs)
-        bad = False
-        for t, how in trs:
-            adds = [c for c in calls(t, "self.active_flows.add")]
-            others = [c for c in t if c[0] == "call" and c not in adds]
-            s = fact(t, "self.stream")
-            if s is True:
-                good = len(adds) == 1 and adds[0][2] == (fp[0],) and not others and how == "return"
-            elif s is False:
-                good = not adds and not others
-            else:
-                good = False
-            if not good:
-                bad = True
-                ctx.fail("R39.1", (SAVE, f"Save.{hname}", fn), f"{hname}: path [{show(t)}]",
-                         f"start hook {hname} ({typ}) must add its flow to active_flows exactly when self.stream is set (stream fact on this path: {s})")
-        if not bad:
-            ctx.ok("R39.1", f"start {typ}:{hname} -> active_flows.add(flow) iff self.stream")
+        h = _History(ctx, "R39.1", f"flow open at the stop after {hname}", where)
+        f, g = flow("f", typ), flow("g", typ, "y")
+        h.cfg(save_stream_file="+/dump")
+        h.start(hname, f)
+        h.start(hname, g)
+        h.cfg(save_stream_filter="x")
+        h.cfg(save_stream_file=None)
+        good = h.close()
+        h = _History(ctx, "R39.1", f"{hname} while no stream is open", where)
+        f = flow("f", typ)
+        h.start(hname, f)
+        for c in completions_of.get(typ, [])[:1]:
+            if probe.has(c):
+                h.complete(c, f)
+        h.cfg(save_stream_file="/dump")
+        h.cfg(save_stream_file=None)
+        good = h.close() and good
+        if good:
+            ctx.ok("R39.1", f"start {typ}:{hname} -> the flow is written at the stop iff a stream was open")
 
-    # ---- R39.1 no other hook method writes
-    for hname in sorted(meths):
-        if hname in completion or hname in start or hname in ("save_flow", "done", "configure"):
-            continue
-        is_hook = hname in other or hname in LIFECYCLE
-        fn = meths[hname]
-        trs, eng = paths(fn, resolver=resolver, keep=lambda e: e[0] == "call" and e[1] in (SINK, WRITE), record_conds=False)
-        ctx.paths += len(trs)
-        writes = any(calls(t, SINK) or calls(t, WRITE) for t, _ in trs)
-        if not writes:
-            ctx.ok("R39.1", f"Save.{hname} never reaches save_flow / stream.add")
-        elif is_hook or not hname.startswith("_"):
-            ctx.fail("R39.1", (SAVE, f"Save.{hname}", fn), f"{hname} reaches a stream write",
-                     "a method that is not a completion hook writes a record: a flow is written before its completion / more than once")
-        # private helpers (leading underscore) are reached only through the hooks above, where they are inlined
+    # ---- R39.1 no other flow hook writes
+    others = sorted(n for n in other if probe.has(n))
+    h = _History(ctx, "R39.1", "hooks that are no completion", where)
+    h.cfg(save_stream_file="/dump")
+    for n in others:
+        f = flow(f"o-{n}", other[n])
+        begin(h, other[n], f)
+        h.silent(n, f)
+    w = flow("w", "websocket")
+    begin(h, "websocket", w)
+    h.close(f"no record before completion: other flow hooks on Save {others or '(none defined)'}, response/error of a websocket flow")
 
-    # ---- R39.2 save_flow
-    sf = ctx.func(SAVE, "Save.save_flow")
-    fp = params(sf)
-    ctx.require(len(fp) == 1, "Save.save_flow no longer takes exactly one flow parameter")
-    keep = lambda e: e[0] in ("call", "assign") and (e[1] in (WRITE, "self.stream", "self.active_flows") or e[1].startswith("self.active_flows.") or e[1].endswith(".close"))
-    trs, eng = paths(sf, keep=keep)
-    ctx.paths += len(trs)
-    bad = False
-    seen_ok = 0
-    for t, how in trs:
-        w = calls(t, WRITE)
-        s0 = next((p for p in (fact(t[: i + 1], "self.stream") for i in range(len(t))) if p is not None), None)
-        excepted = any(e[0] == "except" for e in t)
-        if s0 is False:
-            good, why = not w, "writes although no stream is open"
-        elif s0 is None:
-            good, why = not w, "writes without having checked that a stream is open"
-        elif excepted or how != "return":
-            good, why = True, ""  # write failed: the addon terminates the process (not a C39 observable)
-        else:
-            rm = [c for c in t if c[0] == "call" and c[1] in ("self.active_flows.discard", "self.active_flows.remove") and c[2] == (fp[0],)]
-            good = len(w) == 1 and w[0][2] == (fp[0],) and len(rm) >= 1
-            why = f"stream.add x{len(w)} {[c[2] for c in w]}, active_flows.discard(flow) x{len(rm)} on the success path (exactly one record, and the flow must leave active_flows or done() writes it again)"
-            seen_ok += good
-        if not good:
-            bad = True
-            ctx.fail("R39.2", (SAVE, "Save.save_flow", sf), f"save_flow: path [{show(t)}]", why)
-    ctx.require(bad or seen_ok >= 1, "save_flow has no success path with an open stream")
-    if not bad:
-        ctx.ok("R39.2", f"save_flow: {len(trs)} paths, success path adds once and discards")
+    # ---- R39.2 bookkeeping
+    h = _History(ctx, "R39.2", "completions without a stream and after done()", where)
+    f, g, k = flow("f", "http"), flow("g", "tcp"), flow("k", "dns")
+    for c in sorted(completion):
+        if probe.has(c):
+            h.complete(c, flow("n-" + c, completion[c]))
+    h.cfg(save_stream_file="/dump")
+    begin(h, "http", f)
+    begin(h, "tcp", g)
+    h.complete(completions_of["http"][0], f)
+    h.done()
+    h.complete(completions_of["tcp"][0], g)
+    begin(h, "dns", k)
+    h.done()
+    h.cfg(save_stream_file=None)
+    h.close("save_flow/done: nothing without a stream, open flows once at done(), nothing afterwards")
 
-    # ---- R39.2 done
-    dn = ctx.func(SAVE, "Save.done")
-    loops = [n for n in ast.walk(dn) if isinstance(n, (ast.For, ast.While))]
-    it = None
-    if len(loops) == 1 and isinstance(loops[0], ast.For) and isinstance(loops[0].target, ast.Name):
-        e = loops[0].iter
-        if isinstance(e, ast.Call) and isinstance(e.func, ast.Name) and e.func.id in ("list", "tuple", "sorted", "set", "frozenset") and len(e.args) == 1:
-            e = e.args[0]
-        if attr_chain(e) == "self.active_flows":
-            it = loops[0]
-    if it is None:
-        ctx.require(len(loops) <= 1, "Save.done has several loops: shape not modelled")
-        ctx.fail("R39.2", (SAVE, "Save.done", dn), "done: no loop over self.active_flows", "flows still open when saving stops are not written")
-    else:
-        var = it.target.id
-        trs, eng = paths(dn, keep=keep)
-        ctx.paths += len(trs)
-        bad = False
-        iterated = 0
-        for t, how in trs:
-            if fact(t[: max(1, next((i for i, e in enumerate(t) if e[0] != "cond"), len(t)))], "self.stream") is not True:
-                if calls(t, WRITE):
-                    bad = True
-                    ctx.fail("R39.2", (SAVE, "Save.done", dn), f"done: path [{show(t)}]", "writes without an open stream")
-                continue
-            enter = [i for i, e in enumerate(t) if e[0] == "loop" and e[2] is True]
-            leave = [i for i, e in enumerate(t) if e[0] == "loop" and e[2] is False]
-            probs = []
-            if how != "return" or not leave:
-                probs.append("does not finish normally")
-            else:
-                end = leave[-1]
-                inside = [e for e in t[enter[0]:end]] if enter else []
-                w_in = calls(inside, WRITE)
-                w_all = calls(t, WRITE)
-                if enter:
-                    iterated += 1
-                    if len(w_in) != len(enter) or any(c[2] != (var,) for c in w_in):
-                        probs.append(f"an iteration adds {[c[2] for c in w_in]} instead of the loop's flow exactly once")
-                if len(w_all) != len(w_in):
-                    probs.append("writes outside the loop over active_flows")
-                cleared = [i for i, e in enumerate(t) if (e[0] == "call" and e[1] == "self.active_flows.clear") or (e[0] == "assign" and e[1] == "self.active_flows")]
-                if not cleared or cleared[-1] < end or any(i < end for i in cleared):
-                    probs.append("active_flows is not cleared after (and only after) the loop: flows would be lost or written again at the next stop")
-                if any(e[0] == "call" and e[1].endswith(".close") for e in t[:end]):
-                    probs.append("the stream file is closed before the remaining flows are written")
-                dropped = [i for i, e in enumerate(t) if e[0] == "assign" and e[1] == "self.stream" and e[2] == "None"]
-                if not dropped or dropped[-1] < end or any(i < end for i in dropped):
-                    probs.append("self.stream is not reset to None after the loop: completions after the stop would still be written")
-            for p in probs:
-                bad = True
-                ctx.fail("R39.2", (SAVE, "Save.done", dn), f"done: path [{show(t, 14)}]", p)
-        ctx.require(bad or iterated >= 1, "Save.done: no path iterates over active_flows")
-        if not bad:
-            ctx.ok("R39.2", f"done: {len(trs)} paths; each active flow added once, set cleared, stream dropped")
+    h = _History(ctx, "R39.2", "stop, restart, stop", where)
+    f, g = flow("f", "udp"), flow("g", "http")
+    h.cfg(save_stream_file="+/dump")
+    begin(h, "udp", f)
+    begin(h, "http", g)
+    h.complete(completions_of["http"][-1], g)
+    h.cfg(save_stream_file=None)
+    h.cfg(save_stream_file="+/dump")
+    h.cfg(save_stream_file=None)
+    h.cfg(save_stream_file="+/dump")
+    h.done()
+    h.close("a completed flow is not written again at the stop; open flows are written at one stop only")
 
-    # ---- R39.2 FilteredFlowWriter.add
-    add = ctx.func(IO, "FilteredFlowWriter.add")
-    fp = params(add)
-    ctx.require(len(fp) == 1, "FilteredFlowWriter.add no longer takes exactly one flow parameter")
-    ctx.require(not aliases_of(add, "self.flt"), "FilteredFlowWriter.add aliases self.flt")
-
-    def is_match(x):
-        if isinstance(x, ast.Call) and last_attr(x.func) == "match" and len(x.args) == 2:
-            return attr_chain(x.args[0]) == "self.flt" and isinstance(x.args[1], ast.Name) and x.args[1].id == fp[0]
-        if isinstance(x, ast.Call) and attr_chain(x.func) == "self.flt" and len(x.args) == 1:
-            return isinstance(x.args[0], ast.Name) and x.args[0].id == fp[0]
-        return False
-
-    trs, eng = paths(add, keep=lambda e: e[0] == "call" and (e[1].endswith("dump") or e[1].endswith(".write")))
-    ctx.paths += len(trs)
-    bad = False
-    for t, how in trs:
-        if how != "return":
-            continue
-        dumps = [c for c in t if c[0] == "call"]
-        flt = fact(t, "self.flt")
-        mt = cond_facts(t, is_match)
-        passes = flt is False or (mt and mt[-1] is True)
-        blocked = flt is True and mt and mt[-1] is False
-        if passes:
-            good, why = len(dumps) == 1, f"a flow passing the filter is written {len(dumps)}x instead of once"
-        elif blocked:
-            good, why = not dumps, "a flow rejected by the filter is written"
-        else:
-            good, why = not dumps, "a record is written on a path that has not decided the filter"
-            if good:
-                continue
-        if not good:
-            bad = True
-            ctx.fail("R39.2", (IO, "FilteredFlowWriter.add", add), f"add: path [{show(t)}]", why)
-    outcomes = {(fact(t, "self.flt"), tuple(cond_facts(t, is_match))) for t, _ in trs}
-    ctx.require(bad or ((False, ()) in outcomes and (True, (True,)) in outcomes and (True, (False,)) in outcomes),
-                f"FilteredFlowWriter.add: filter decision not recognised (accepted: self.flt truthiness and flowfilter.match(self.flt, f)); saw {sorted(map(str, outcomes))}")
-    if not bad:
-        ctx.ok("R39.2", f"FilteredFlowWriter.add: {len(trs)} paths; one record iff no filter or filter matches")
+    h = _History(ctx, "R39.2", "stream writer and filter", (IO, "FilteredFlowWriter.add", m.func(IO, "FilteredFlowWriter.add") if m.has(IO, "FilteredFlowWriter.add") else save))
+    fx, fy = flow("fx", "http", "x"), flow("fy", "tcp", "y")
+    h.cfg(save_stream_file="/dump")
+    h.writer_add(fx)
+    h.writer_add(fy)
+    h.cfg(save_stream_filter="x")
+    h.writer_add(fy)
+    h.writer_add(fx)
+    h.writer_add(fx)
+    h.cfg(save_stream_filter="y")
+    h.writer_add(fx)
+    h.writer_add(fy)
+    h.close("stream writer add(): one record iff no filter is set or the filter matches")
 
     # ---- R39.3 configure
-    cf = ctx.func(SAVE, "Save.configure")
-    up = params(cf)
-    ctx.require(len(up) == 1, "Save.configure signature changed")
-    up = up[0]
+    h = _History(ctx, "R39.3", "filter changed while the stream is open", (SAVE, "Save.configure", m.func(SAVE, "Save.configure")))
+    f, g = flow("f", "http", "x"), flow("g", "dns", "y")
+    h.cfg(save_stream_file="/dump")
+    h.cfg(save_stream_filter="x")
+    h.complete(completions_of["dns"][0], g)
+    h.complete(completions_of["http"][0], f)
+    h.cfg(save_stream_filter=None)
+    h.complete(completions_of["dns"][0], g)
+    h.cfg(save_stream_filter="y", save_stream_file="/dump")
+    h.complete(completions_of["http"][0], f)
+    h.complete(completions_of["dns"][-1], g)
+    h.cfg(save_stream_file=None)
+    h.close("configure: a changed / cleared filter is what the live writer uses")
 
-    def updated(t, opt):
-        v = [e[2] for e in t if e[0] == "cond" and e[1] in (f"'{opt}' in {up}", f'"{opt}" in {up}')]
-        return v[-1] if v else None
+    h = _History(ctx, "R39.3", "save_stream_file cleared", (SAVE, "Save.configure", m.func(SAVE, "Save.configure")))
+    f, g, k = flow("f", "tcp"), flow("g", "udp", "y"), flow("k", "dns")
+    h.cfg(save_stream_file="/dump", save_stream_filter="xz")
+    begin(h, "tcp", f)
+    begin(h, "udp", g)
+    begin(h, "dns", k)
+    h.cfg(save_stream_file=None)
+    h.complete(completions_of["tcp"][0], f)
+    h.cfg(save_stream_file="+/dump")
+    h.cfg(save_stream_file=None)
+    h.close("configure: clearing save_stream_file writes the open matching flows once and stops")
 
-    def opt_fact(t, opt):
-        return fact(t, f"ctx.options.{opt}")
+    h = _History(ctx, "R39.3", "rotation to a new file", (SAVE, "Save.maybe_rotate_to_new_file", m.func(SAVE, "Save.maybe_rotate_to_new_file") if m.has(SAVE, "Save.maybe_rotate_to_new_file") else save))
+    f, g, k, o = flow("f", "http", "x"), flow("g", "tcp", "y"), flow("k", "udp", "x"), flow("o", "dns", "x")
+    h.cfg(save_stream_file="/dump-%H", save_stream_filter="x")
+    begin(h, "dns", o)
+    h.complete(completions_of["http"][0], f)
+    h.tick("02")
+    h.complete(completions_of["tcp"][0], g)
+    h.complete(completions_of["udp"][0], k)
+    h.tick("03")
+    h.cfg(save_stream_filter="x")
+    h.complete(completions_of["tcp"][0], g)
+    h.tick("04")
+    h.cfg(save_stream_file=None)
+    h.close("rotation: the new writer filters like the old one; no record lost or duplicated across rotations")
 
-    kp = lambda e: (e[0] == "call" and e[1] in ("self.done", "flowfilter.parse", WRITE)) or (e[0] == "assign" and e[1] in ("self.filt", "self.stream.flt"))
-    trs, eng = paths(cf, keep=kp)
-    ctx.paths += len(trs)
-    bad = False
-    n_install = n_done = n_parse = n_clear = 0
-    for t, how in trs:
-        if how != "return":
-            continue  # OptionsError: the option change is rejected
-        if not feasible(t, lambda x: x.endswith(f" in {up}") or x.startswith("ctx.options.")):
-            continue
-        uf, us = updated(t, "save_stream_filter"), updated(t, "save_stream_file")
-        ctx.require(uf is not None, f"configure: a path does not test 'save_stream_filter' in {up}: [{show(t)}]")
-        filt_assign = [i for i, e in enumerate(t) if e[0] == "assign" and e[1] == "self.filt"]
-        probs = []
-        if uf:
-            of = opt_fact(t, "save_stream_filter")
-            if of is True:
-                n_parse += 1
-                ok = filt_assign and t[filt_assign[-1]][2].startswith("flowfilter.parse(ctx.options.save_stream_filter")
-                if not ok:
-                    probs.append("a changed save_stream_filter is not parsed into self.filt")
-            elif of is False:
-                n_clear += 1
-                if not (filt_assign and t[filt_assign[-1]][2] == "None"):
-                    probs.append("a cleared save_stream_filter does not reset self.filt to None")
-            else:
-                probs.append("self.filt is updated without looking at the option value")
-        file_set = opt_fact(t, "save_stream_file")
-        if uf or us:
-            if file_set is True and uf:
-                n_install += 1
-                inst = [i for i, e in enumerate(t) if e[0] == "assign" and e[1] == "self.stream.flt" and e[2] == "self.filt"]
-                if not inst or (filt_assign and inst[-1] < filt_assign[-1]):
-                    probs.append("the changed filter is not installed on the live writer (self.stream.flt = self.filt after self.filt is updated)")
-            elif file_set is False:
-                n_done += 1
-                if not calls(t, "self.done"):
-                    probs.append("save_stream_file was cleared but done() is not called: open flows are lost and later completions still written")
-            elif file_set is None:
-                probs.append("file/filter option changed but the path never looks at ctx.options.save_stream_file")
-        for p in probs:
-            bad = True
-            ctx.fail("R39.3", (SAVE, "Save.configure", cf), f"configure: path [{show(t, 12)}]", p)
-    ctx.require(bad or (n_install and n_done and n_parse and n_clear), f"configure: expected path classes not found (install={n_install}, done={n_done}, parse={n_parse}, clear={n_clear})")
-    if not bad:
-        ctx.ok("R39.3", f"configure: {len(trs)} paths; filter parsed/cleared, installed on the live writer, done() on clear")
+    if ctx.tier == "thorough":
+        _interleavings(ctx, where, starts_of, completions_of, probe)
 
-    rot = ctx.func(SAVE, "Save.maybe_rotate_to_new_file")
-    ctors = [c for c in ast.walk(rot) if isinstance(c, ast.Call) and last_attr(c.func) == "FilteredFlowWriter"]
-    ctx.require(ctors, "maybe_rotate_to_new_file no longer constructs a FilteredFlowWriter")
-    init = ctx.func(IO, "FilteredFlowWriter.__init__")
-    ip = params(init)
-    ctx.require(len(ip) == 2 and any(isinstance(s, ast.Assign) and attr_chain(s.targets[0]) == "self.flt" and attr_chain(s.value) == ip[1] for s in init.body),
-                "FilteredFlowWriter.__init__(fo, flt) no longer stores its second parameter in self.flt")
-    for c in ctors:
-        arg = c.args[1] if len(c.args) > 1 else next((k.value for k in c.keywords if k.arg == ip[1]), None)
-        ctx.check(arg is not None and attr_chain(arg) == "self.filt", "R39.3", (SAVE, "Save.maybe_rotate_to_new_file", c), c,
-                  "a rotated stream writer is created without the current filter: non-matching flows are written after rotation",
-                  desc="rotated writer gets self.filt")
-    # all writers of self.stream / self.filt are the methods analysed above
-    for name, fn in meths.items():
-        for n in ast.walk(fn):
-            tg = []
-            if isinstance(n, ast.Assign):
-                tg = n.targets
-            elif isinstance(n, (ast.AugAssign, ast.AnnAssign)):
-                tg = [n.target]
-            for t in tg:
-                ch = attr_chain(t)
-                if ch in ("self.stream", "self.filt", "self.stream.flt", "self.active_flows"):
-                    allowed = {"self.stream": {"__init__", "maybe_rotate_to_new_file", "done"}, "self.filt": {"__init__", "configure"},
-                               "self.stream.flt": {"configure"}, "self.active_flows": {"__init__", "done"}}[ch]
-                    ctx.require(name in allowed, f"Save.{name} assigns {ch}: writer not modelled by C39")
-
-    expect(ctx, "R39.1", 9 + 4 + 4)
+    expect(ctx, "R39.1", len(completion) + len(start) + 1)
     expect(ctx, "R39.2", 3)
-    expect(ctx, "R39.3", 2)
+    expect(ctx, "R39.3", 3)
+
+
+def _interleavings(ctx, where, starts_of, completions_of, probe, depth=3):
+    """thorough tier: every sequence of ``depth`` events after activation, two flows (a: http matching 'x', b: tcp tagged 'y')."""
+    a_start, b_start = starts_of["http"][0], starts_of["tcp"][0]
+    a_done, a_err = completions_of["http"][0], completions_of["http"][-1]
+    b_done = completions_of["tcp"][-1]
+    need = [a_start, b_start, a_done, a_err, b_done]
+    if not all(probe.has(n) for n in need):
+        return  # reported as missing hooks above
+    alphabet = ["a+", "b+", "a.", "a!", "b.", "flt=x", "flt=-", "stop", "go", "done", "tick"]
+    n = 0
+    for seq in itertools.product(alphabet, repeat=depth):
+        h = _History(ctx, "R39.2", "interleaving " + " ".join(seq), where)
+        a, b = make_flow("a", "HTTPFlow", tags="x"), make_flow("b", "TCPFlow", tags="y")
+        h.cfg(save_stream_file="+/dump-%H")
+        clock = 1
+        for ev in seq + ("stop",):
+            if ev == "a+":
+                h.start(a_start, a)
+            elif ev == "b+":
+                h.start(b_start, b)
+            elif ev == "a.":
+                h.complete(a_done, a)
+            elif ev == "a!":
+                h.complete(a_err, a)
+            elif ev == "b.":
+                h.complete(b_done, b)
+            elif ev == "flt=x":
+                h.cfg(save_stream_filter="x")
+            elif ev == "flt=-":
+                h.cfg(save_stream_filter=None)
+            elif ev == "stop":
+                h.cfg(save_stream_file=None)
+            elif ev == "go":
+                h.cfg(save_stream_file="+/dump-%H")
+            elif ev == "done":
+                h.done()
+            elif ev == "tick":
+                clock += 1
+                h.tick(f"{clock:02d}")
+        n += 1
+        if not h.ok:
+            break
+    ctx.note(f"thorough: {n} interleavings of depth {depth} agree with the property's oracle")
 
 
 MUTANTS = [
